@@ -1,4 +1,5 @@
 import RedisVerif.Lemmas.SortedSetZ3
+import RedisVerif.Model.ExecutorCode
 
 /-!
 # C01 — the data structures behind the commands REFINE the reference model
@@ -20,7 +21,7 @@ transcription to the real `RedisSortedSet` (harness/src/datax.rs: same operation
 real structure, observables AND the internal layout compared after every step).
 -/
 namespace RedisVerif.C01Data
-open RedisVerif RedisVerif.Redis RedisVerif.SkipList RedisVerif.DataStructs
+open RedisVerif RedisVerif.Redis RedisVerif.SkipList RedisVerif.DataStructs RedisVerif.ExecutorCode
 
 /-! ## the level generator of the code is one of the generators the theorems quantify over -/
 
@@ -252,5 +253,91 @@ theorem sds_representation_boundary :
 example : ((Sds.new (List.replicate 22 7)).append (Sds.new [1])).isInline = true := by decide
 example : ((Sds.new (List.replicate 23 7)).append (Sds.new [1])).isInline = false := by decide
 example : ((Sds.heap [1, 2]).append (Sds.new [3])).isInline = false := by decide
+
+/-! ## where the executor's code deviates from the specification (known findings, by cause) -/
+
+/-- the class of GETRANGE arguments on which `execute_getrange` deviates from Redis -/
+def GetRangeDeviates (len : Nat) (a b : Int) : Prop := a < 0 ∧ b < 0 ∧ a > b ∧ (len : Int) + a ≤ 0 ∧ 0 < len
+
+theorem codeRangeNorm_eq (len : Nat) (a b : Int) (h : ¬ GetRangeDeviates len a b) :
+    codeRangeNorm len a b = rangeNorm len a b := by
+  unfold GetRangeDeviates at h
+  unfold codeRangeNorm rangeNorm normIdx clampEnd
+  by_cases hl : len = 0
+  · subst hl; simp
+  · simp only [hl, if_false, false_or]
+    by_cases ha : a < 0 <;> by_cases hb : b < 0 <;> simp only [ha, hb, if_true, if_false]
+    all_goals (repeat' split)
+    all_goals first
+      | rfl
+      | omega
+      | (simp only [Option.some.injEq, Prod.mk.injEq]; constructor <;> omega)
+      | (exfalso; omega)
+      | (exfalso; simp_all; done)
+
+theorem codeRangeNorm_deviates (len : Nat) (a b : Int) (h : GetRangeDeviates len a b) :
+    codeRangeNorm len a b = some (0, 1) ∧ rangeNorm len a b = none := by
+  obtain ⟨h1, h2, h3, h4, h5⟩ := h
+  unfold codeRangeNorm rangeNorm
+  constructor
+  · rw [if_neg (by omega)]
+    simp only [h1, h2, if_true]
+    rw [if_neg (by omega)]
+    simp only [Option.some.injEq, Prod.mk.injEq]; constructor <;> omega
+  · rw [if_pos ⟨h1, h2, h3⟩]
+
+/-- `execute_getrange` answers exactly as Redis outside the deviating class, and with the first
+    byte instead of the empty string inside it -/
+theorem getrange_code_vs_spec (s : State) (k : Nat) (a b : Int) :
+    (∀ v dl, lookupStr s k = .found v dl → ¬ GetRangeDeviates v.length a b) →
+    codeGetRange s k a b = execGetRange s k a b := by
+  intro h
+  unfold codeGetRange execGetRange
+  cases hl : lookupStr s k with
+  | missing => rfl
+  | wrong => rfl
+  | found v dl => simp only; rw [codeRangeNorm_eq _ _ _ (h v dl hl)]
+
+theorem getrange_code_counterexample :
+    codeGetRange [(1, ⟨.str [97, 98, 99], none⟩)] 1 (-100) (-200) ≠
+      execGetRange [(1, ⟨.str [97, 98, 99], none⟩)] 1 (-100) (-200) := by decide
+
+/-- `execute_getset` = GETSET of Redis except that the old deadline stays: same reply, same value,
+    same keys; and identical when the key had no deadline -/
+theorem getset_code_vs_spec (s : State) (k : Nat) (v : BS) :
+    (codeGetSet s k v).2 = (execGetSet s k v).2 ∧
+    (codeGetSet s k v).1.map (fun p => (p.1, p.2.val)) = (execGetSet s k v).1.map (fun p => (p.1, p.2.val)) ∧
+    (oldDl s k = none → codeGetSet s k v = execGetSet s k v) := by
+  unfold codeGetSet execGetSet oldDl
+  cases hl : lookupStr s k with
+  | missing => exact ⟨rfl, rfl, fun _ => rfl⟩
+  | wrong => exact ⟨rfl, rfl, fun _ => rfl⟩
+  | found b dl =>
+    simp only
+    refine ⟨trivial, ?_, ?_⟩
+    · generalize s = l
+      induction l with
+      | nil => rfl
+      | cons p r ih =>
+        obtain ⟨k', e⟩ := p
+        simp only [NMap.insert]
+        split
+        · rfl
+        · split
+          · rfl
+          · simp only [List.map_cons, ih]
+    · intro hd
+      simp only [lookupStr] at hl
+      cases hg : NMap.get s k with
+      | none => rw [hg] at hl; cases hl
+      | some e =>
+        rw [hg] at hl hd
+        simp only at hd hl
+        cases hv : e.val <;> rw [hv] at hl <;> simp at hl
+        rw [← hl.2, hd]
+
+theorem getset_code_counterexample :
+    codeGetSet [(1, ⟨.str [118], some 5000⟩)] 1 [119] ≠ execGetSet [(1, ⟨.str [118], some 5000⟩)] 1 [119] := by
+  decide
 
 end RedisVerif.C01Data
